@@ -51,6 +51,8 @@ pub struct Shared {
     pub events: Vec<String>,
     pub read_dropped: bool,
     pub write_dropped: bool,
+    /// recvmsg calls answered with the fault (a reader that keeps retrying after the fault is a livelock)
+    pub after_fault: usize,
 }
 
 impl Shared {
@@ -74,6 +76,7 @@ impl Shared {
             events: vec![],
             read_dropped: false,
             write_dropped: false,
+            after_fault: 0,
         }
     }
     pub fn release(&mut self, b: &[u8]) {
@@ -121,6 +124,11 @@ impl ReadHalf for RHalf {
             let mut st = sh.lock().unwrap();
             if st.broken || st.rfault == Some(st.rpos) {
                 st.activity += 1;
+                st.after_fault += 1;
+                if st.after_fault > 5000 {
+                    drop(st);
+                    panic!("the reader keeps calling recvmsg after the transport failed");
+                }
                 return Poll::Ready(fault(st.kind));
             }
             let limit = match st.rfault {
